@@ -35,6 +35,10 @@ CLAIMS = {
          "Necessary conditions decided on every enumerated path: status table; the complete (entry x status x old seeder flag) effect table of insert_or_update_peer equals delta = new_seeder - old_seeder with the right structural operation; connection-closed and cleaning effects; closed set of functions that mutate the peer map or the seeder counter; every update of an existing entry and every removal on connection close is dominated by equality of BOTH identity components (socket worker id, connection id) - the rule that exposed two genuine defects, repaired by fix: commits 0628e14 and 259330c; reply counts read after the update; scrape only reports stored torrents.",
          "Not decided: equivalence with a reference tracker over all histories (the local effect tables are necessary, not sufficient); indexmap semantics trusted.",
          "DESIGN.md section 2, C08"),
+ "C15": ("wire schema recovered from the derived serde code (MIR) + pairwise unambiguity of untagged variants + path analysis of the hand-written 20-byte visitor",
+         "Necessary conditions: for InMessage / OutMessage / ScrapeRequestInfoHashes no earlier untagged variant can accept a later variant's output (required keys, serde(default), tag enums and skip_serializing_if recovered from the derived Deserialize/Serialize bodies); Text and Binary frames go through the same deserialiser; the visitor rejects short input and chars > U+00FF and tests that the input is exhausted after 20 chars (this rule exposed a genuine defect, repaired by fix: commit da612f4); the encoder writes one char per byte into a 40-byte buffer.",
+         "Trusted: serde derive semantics, serde_json / simd-json (string escaping, numbers). The SDP round trip itself is not decided.",
+         "DESIGN.md section 2, C15"),
 }
 
 PENDING_REASON = "check under construction in this build phase (static rules designed in DESIGN.md section 2); not claimed until its rule set is validated both ways"
